@@ -274,7 +274,6 @@ def r06_2(ctx):
                   expected="linspace(control_grid[k], control_grid[k+1], M+1)", found=n.key(full), fi=f, node=a, sample={"t_local": n.key(full)})
 
 
-COUPLING_KNOWN = {}
 
 
 @rule("R06.3", min_instances=4, desc="every concrete method places the grid's coupling/bound constraints for every control interval k")
